@@ -52,7 +52,8 @@ CLAIM = dict(
     "pressure_cg_never_stale, cache_refines_WObj of C16) against instrumented call sequences on live objects (set-up events, which inner "
     "system each call solves), exact rational model solution vs every usable formulation x back-end incl. matrices whose divergence blocks differ "
     "from the cache, CSC arrays + patternOk on C07-range shapes (all 186 in the thorough tier, 54 in quick). ORACLE ONLY (no model): "
-    "Bregman runs with a regularisation schedule, caller-held rhs/matrix "
+    "Bregman runs with a regularisation schedule, solutions handed out earlier in a reuse sequence stay intact after later solves, "
+    "caller-held rhs/matrix "
     "unchanged, same right-hand side kind at magnitudes 2^-40 .. 2^20, end-to-end distances; residuals in exact Fraction arithmetic "
     "against the original full system with an a-posteriori bound.",
     note="KNOWN FINDINGS (reported, exit 0): formulation 'flux_reduced'/'flux-reduced' with linear_solver 'amg'/'cg' does not solve the full "
@@ -515,6 +516,7 @@ def one_system(ctx, d, usable, shape, seed_tag, tight=False, only=None, data=Non
     for (f, s), ok in usable.items():
         if not ok or (only is not None and (f, s) not in only):
             continue
+        handed_out = []  # (step, the returned array itself, its value right after the call)
         opts = {}
         rtol = 1e-6
         if tight and s in ("amg", "cg"):
@@ -545,6 +547,8 @@ def one_system(ctx, d, usable, shape, seed_tag, tight=False, only=None, data=Non
                                 pair=[f, s], step=step))
                 break
             x = np.asarray(r[0], dtype=float)
+            if isinstance(r[0], np.ndarray):
+                handed_out.append((step, r[0], np.array(r[0], copy=True)))
             if x.shape != b0.shape or not np.all(np.isfinite(x)):
                 out.append(dict(sig=f"C08:linear_solve:formulation={f}:linear_solver={s}:residual-vs-full-system:{size_class(shape)}",
                                 what=f"solution returned by linear_solve[{tag}] has the wrong shape or non-finite entries on grid {shape}, step {step}",
@@ -577,6 +581,17 @@ def one_system(ctx, d, usable, shape, seed_tag, tight=False, only=None, data=Non
                     out.append(dict(sig=f"C08:linear_solve:formulation={f}:linear_solver={s}:differs-from:{p0[0]},{p0[1]}",
                                     what=f"solutions of the same system differ by {diff:.3e} > {ptol:.3e} between [{tag}] and {p0} on grid {shape}",
                                     pair=[f, s], step=step))
+        # solutions handed out earlier in the sequence must still be what they were after the later solves (a solve that
+        # recycles its result buffer silently replaces the solutions of earlier systems the caller still holds)
+        for i, (st_i, arr_i, val_i) in enumerate(handed_out):
+            later = [a for _, a, _ in handed_out[i + 1:]]
+            if not np.array_equal(arr_i, val_i, equal_nan=True) or any(np.shares_memory(arr_i, a) for a in later):
+                out.append(dict(sig=f"C08:linear_solve:formulation={f}:linear_solver={s}:returned-solution-overwritten-by-later-solve",
+                                what=f"the solution returned by linear_solve[{f},{s}] for system {st_i} of a sequence on one object (reuse_solver "
+                                     f"after the first call) was overwritten by a later solve: it changed by up to "
+                                     f"{float(np.nanmax(np.abs(arr_i - val_i))):.3e} / shares memory with a later result, grid {shape}",
+                                pair=[f, s], step=st_i))
+                break
     return out, data
 
 
